@@ -221,26 +221,26 @@ def judge_multichan(c, l1_checks, n, nthreads):
 
 
 def cover_multichan(c, name, threads, l1_checks, initial=2, maxs=2, n=4, idmap=None, max_paths=None, invariants=MULTICHAN_INV + MULTICHAN_DELIVERY + ("InvNoLostWakeup", "InvCancelEnds"),
-                    constraint=None):
+                    constraint=None, kind="arc"):
     """the Arc-based atomic Multi channel: every transition of the MultiChan state graph (one ring per listener + the fan-out loop + the streams
        manager's create / drop / list rebuild / wake / waker-registration / cancel protocol + the executor tasks) is replayed into the real
        channel; each replay is validated scheduling point by scheduling point against MultiChan (L2) and judged by Trace_AbsMulti (L1)"""
     from .chan import cscn
     procs = list(range(len(threads)))
-    mc = {"N": n, "W": 4 * n, "MaxS": maxs, "Procs": procs, "Initial": set(range(initial))}
-    tc = {"N": n, "W": 64, "MaxS": maxs, "Procs": procs}
-    sc = cscn(name, "multi_arc_atomic", n, maxs, threads, None, pre_streams=initial, payload="u64")
+    mc = {"N": n, "W": 4 * n, "MaxS": maxs, "Procs": procs, "Initial": set(range(initial)), "Kind": '"%s"' % kind}
+    tc = {"N": n, "W": 64, "MaxS": maxs, "Procs": procs, "Kind": '"%s"' % kind}
+    sc = cscn(name, "multi_arc_atomic" if kind == "arc" else "multi_ogre_atomic", n, maxs, threads, None, pre_streams=initial, payload="u64")
     sc["record_ops"] = True
     return graph.replay_cover(c, name, "MC_MultiChan", graph.tla_script(threads, multichan_fmt(idmap)), mc, sc, "Trace_MultiChan", tc, invariants=list(invariants),
                               step_expr=None, judge_fn=judge_multichan(c, l1_checks, n, len(threads)), max_paths=max_paths, constraint=constraint)
 
 
-def conform_multichan(c, name, scns, l1_checks, maxs=2, n=4, nthreads=4):
+def conform_multichan(c, name, scns, l1_checks, maxs=2, n=4, nthreads=4, kind="arc"):
     """implementation -> specification at L2: explored (DFS / random) executions of the real Arc-based atomic Multi channel with every scheduling
        point recorded, validated against MultiChan and judged by Trace_AbsMulti"""
     for s in scns:
         s["record_ops"] = True
-    tc = {"N": n, "W": 64, "MaxS": maxs, "Procs": list(range(nthreads))}
+    tc = {"N": n, "W": 64, "MaxS": maxs, "Procs": list(range(nthreads)), "Kind": '"%s"' % kind}
     trace, runs, v = c.conform(scns, name, "Trace_MultiChan", tc)
     if v["mismatches"]:
         c.drift.append("%s: %d run(s) of the real channel are not behaviours of MultiChan (first unmatched event: %s)" % (name, len(v["mismatches"]), json.dumps(v["mismatches"][0]["event"])[:300]))
